@@ -127,6 +127,9 @@ def case_misc(ch):
     for _ in range(4 + ch.below(12)):
         k = ch.below(10)
         if k < 4:
+            if ch.below(3) == 0:
+                # CPU time consumed by another thread of the process: the four clocks are four different host clocks
+                ops.append(['burn', ch.pick((20, 50))])
             ops.append(['clock', ch.pick((0, 1, 1, 2, 3)), ch.pick((0, 1, 1000, 1000000, 10000000, 1 << 40)), bool(ch.below(2)), ch.below(4) == 0])
         elif k < 6:
             ops.append(['badclock', ch.pick((4, 5, 255, 0x7fffffff, 0x80000000, 0xffffffff, 4 + ch.bits(31))), bool(ch.below(2))])
@@ -148,7 +151,9 @@ def run_misc(case):
     try:
         ag.init([b'p'], [])
         for op in case['ops']:
-            if op[0] == 'clock':
+            if op[0] == 'burn':
+                ag.burn(op[1])
+            elif op[0] == 'clock':
                 _, cid, prec, unstable = op[:4]
                 cell = (64 * 65536 - 8) if (len(op) > 4 and op[4]) else W.RES        # result cell in the last 8 bytes of memory
                 ag.fill(W.RES, 24)
@@ -383,6 +388,8 @@ def classify(case):
                 out.append('random_len>256_not_multiple')
             if op[0] == 'badclock':
                 out.append('invalid_clock_id')
+            if op[0] == 'burn':
+                out.append('cpu_time_burnt_by_another_thread_before_a_clock_read')
             if op[0] in ('clock', 'random') and len(op) > 4 and op[4]:
                 out.append('result_or_buffer_ends_at_memory_end')
             if op[0] == 'clock' and op[2] >= 1000000:
